@@ -315,6 +315,9 @@ func GenTrueType(t *tape.Tape, n int) *glyf.Outlines {
 		}
 		o.Glyphs = append(o.Glyphs, g)
 		w := fixedWidth
+		if w >= 0 && gid > 0 && t.Chance(1, 8) {
+			w = 0 // combining marks of a monospaced font
+		}
 		if w < 0 {
 			w = t.Range(0, 2000)
 			if t.Chance(1, 8) {
@@ -322,6 +325,12 @@ func GenTrueType(t *tape.Tape, n int) *glyf.Outlines {
 			}
 		}
 		o.Widths = append(o.Widths, funit.Int16(w))
+	}
+	if t.Chance(1, 40) {
+		// every glyph blank: the glyf table is empty
+		for i := range o.Glyphs {
+			o.Glyphs[i] = nil
+		}
 	}
 	if t.Chance(2, 3) {
 		o.Names = genNames(t, n, t.Weighted(6, 1, 1))
@@ -349,8 +358,19 @@ func GenTrueType(t *tape.Tape, n int) *glyf.Outlines {
 
 // name quality: 0 = all unique well-formed, 1 = some missing/duplicate,
 // 2 = many duplicates and empties
+// macOrder is the beginning of the standard Macintosh glyph order (the names
+// a version 1.0 "post" table stands for).
+var macOrder = []string{".notdef", ".null", "nonmarkingreturn", "space", "exclam", "quotedbl", "numbersign", "dollar", "percent", "ampersand",
+	"quotesingle", "parenleft", "parenright", "asterisk", "plus", "comma", "hyphen", "period", "slash", "zero", "one", "two", "three", "four",
+	"five", "six", "seven", "eight", "nine", "colon", "semicolon", "less", "equal", "greater", "question", "at", "A", "B", "C", "D", "E", "F", "G"}
+
 func genNames(t *tape.Tape, n int, quality int) []string {
 	names := make([]string, n)
+	if quality == 0 && n <= len(macOrder) && t.Chance(1, 6) {
+		// the font's glyphs are the first n of the standard Macintosh order
+		copy(names, macOrder)
+		return names
+	}
 	base := []string{"A", "B", "C", "a", "b", "c", "f", "i", "l", "space", "one", "two", "comma", "period", "f_i", "f_l", "uni0416", "a.alt", "B.sc", "x", "y", "z", "Aacute", "germandbls"}
 	off := t.Draw(len(base))
 	for i := range names {
